@@ -21,7 +21,7 @@ RULE = (
     "those of its own file; /metadata children == the records present; root attrs == volume "
     "attrs + reference link; every per-line variable is a coordinate and no 'coordinates' "
     "attribute is left anywhere. Non-trivial: >= 2 images."
-    " Stage 'in-place-pairs': two products with the same file names at the same root, one after the other, both judged. In via-cache cases the tree returned by the open that wrote the caches is judged as well as the tree read back. A quarter of the other cases inject a transient I/O error into the open (the 1st..3rd read of the summary, volume directory, leader, trailer or one image fails once with OSError): the open may raise it, but a tree that is returned is the complete tree."
+    " Stage 'in-place-pairs': two products with the same file names at the same root, one after the other, both judged. In via-cache cases the tree returned by the open that wrote the caches is judged as well as the tree read back. A quarter of the other cases inject a transient I/O error into the open (the 1st..3rd read of the summary, volume directory, leader, trailer or one image fails once with OSError): the open may fail, but a tree that is returned is the complete tree."
 )
 ASSUMPTIONS = ["frozen layout / exposure tables; image order = numeric order of the ProductFileName keys"]
 BUDGET = {"quick": 120, "thorough": 1500}
@@ -115,7 +115,7 @@ def judge_flat(flat, spec, info):
 
 
 def run_io_error(case, spec, files, info):
-    """one read of one component file fails once with OSError: the open may raise that OSError,
+    """one read of one component file fails once with OSError: the open may fail,
     but a tree that is returned is the complete tree of the product (nothing silently left out)"""
     from vf import vtrace
 
@@ -137,9 +137,7 @@ def run_io_error(case, spec, files, info):
         if err is None:
             flat, err = harness.guard(harness.flatten, tree)
         if err is not None:
-            if not isinstance(err, OSError) and "injected transient read error" not in harness.exc_text(err):
-                out.append(harness.disc("exception", f"open_alos2 while a read of {target.split('-')[0]} fails", "OSError (or the complete tree)", harness.exc_text(err)))
-            return out
+            return common.judge_fault_error(err, f"open_alos2 while a read of {target.split('-')[0]} fails")
         for d in judge_flat(flat, spec, info):
             d.setdefault("context", {})["during"] = f"an open in which a read of {target.split('-')[0]} " + ("failed with OSError" if consumed else "was to fail (no such read happened)")
             out.append(d)
